@@ -54,6 +54,7 @@ type UnitSpec struct {
 	Stubs     map[string]string `json:"stubs"` // function full name -> harness function replacing it
 	Assume    []string `json:"assumptions"`
 	NonTermV  bool     `json:"nontermination_is_violation"`
+	RealFmt   bool     `json:"real_fmt"`
 }
 
 // CheckSpec is /verif/checks/<id>.json.
@@ -316,6 +317,7 @@ func (r *checkRun) runUnit(u *UnitSpec, ts TierSpec) {
 	}
 	prog.RepoRoot = repoRoot
 	prog.Stubs = u.Stubs
+	prog.RealFmt = u.RealFmt
 	if r.verbose {
 		fmt.Fprintf(os.Stderr, "[%s/%s] loaded in %.1fs (ssa %.1fs)\n", r.id, u.Name, prog.LoadTime.Seconds(), prog.SSATime.Seconds())
 	}
